@@ -399,8 +399,8 @@ Theorem qos2_first_arrival_drained : forall s t id r d ps pl s' hr, Drained s ->
   s_srv s' = s_srv s ++ [id] /\ hr = HOk true /\ ack_appended s s' (CPubRec id 0) /\ ob_ctl (s_ob s') = [fresh_ctl (CPubRec id 0)].
 Proof.
   intros s t id r d ps pl s' hr Hd Hf H Hm Hl.
-  destruct (qos2_first_arrival s t id r d ps pl s' hr H Hm Hl) as [A [[B C]|[_ R]]];
-    [|exfalso; exact (drained_not_refused _ _ _ (drained_set_srv _ _ Hd) (fits_set_srv _ _ Hf) R)].
+  destruct (qos2_first_arrival s t id r d ps pl s' hr H Hm Hl) as [[B [C A]]|[_ R]];
+    [|exfalso; exact (drained_not_refused _ _ _ Hd Hf R)].
   repeat split; try assumption; try apply C. destruct C as [C _]. rewrite C, (drained_ctl_nil _ (proj1 Hd) (proj2 Hd)). reflexivity.
 Qed.
 
